@@ -728,7 +728,7 @@ theorem shape_numberOrNaN_partial (v : JVal) (hv : v.isList = false) :
     Agrees (Schema.accepts noOracle (entry WinnerTakesAll "invalid_disparity") v)
       (DomKind.numberOrNaN.dom v) := by
   cases v <;> simp only [WinnerTakesAll] <;> schema_simp
-  simp [JVal.isList] at hv
+  all_goals simp [JVal.isList] at hv
 
 /-- the entry as it is written in the tree the finding was made on -/
 def bareIsnanEntry : Schema := .any [.type .int, .type .float, .func (.npIsnan .var)]
